@@ -26,6 +26,10 @@ THEOREMS = [
     "Mtv.Handshake.splitPQ_prime_runs",
     "Mtv.Handshake.splitpq_matches_source",
     "Mtv.Handshake.hs_agree_splitPQ",
+    # the client's own draws as an input (session 9)
+    "Mtv.Handshake.hs_agree_any_draw",
+    "Mtv.Handshake.any_draw_condition",
+    "Mtv.Handshake.zero_draw_excluded",
 ]
 RULE = ("one operation = one complete key exchange of the real client (NewMTProto + CreateConnection over loopback "
         "TCP) with an independent conformant server (own TL, IGE over crypto/aes, SHA-1, RSA-2048 private-key "
@@ -88,6 +92,20 @@ RULE = ("one operation = one complete key exchange of the real client (NewMTProt
         "guard on 0 and 1 (division by zero, as proved of the model). c06.mulmod = the inner double-and-add loop "
         "(transcribed statement by statement; the repository exposes it only inside SplitPQ) against the model's "
         "mulAddMod and (c + a*b) mod n, operands up to 64 bits (quick 34, thorough 3010). "
+        "c06.draw = the client's OWN draws as an input of the exchange: crypto/rand.Reader delivers a prescribed stream - "
+        "nonce, new_nonce, the DH exponent b, and after them further prescribed 256-byte draws (so that a client which "
+        "draws its exponent again reads prescribed bytes too; only then the OS source answers, counted): b = 1, 2, 1000, "
+        "the last exponent whose power of g is below 2^1984 and the first one that reaches it (g = 3: 1251 / 1252, and "
+        "for the group's own g), 2^2048-1, 2^2047, the order of g + 1, dh_prime, dh_prime + 1000, b with 1 / 2 / 8 / 128 "
+        "/ 248 leading zero bytes; streams whose first one or two exponents give a g_b below the recommended range "
+        "[2^1984, dh_prime - 2^1984] and a later one is ordinary, or zero, or nothing prescribed follows; nonce and "
+        "new_nonce all zero / all ones / one significant byte / half zero, also together with a tiny exponent; math/rand "
+        "seeds whose padding of the client's DH message begins with two zero bytes / 0xffff / has zero last bytes "
+        "(29 exchanges in every run, thorough + 200 drawn); oracle: the unchanged C06 oracle whatever and however often "
+        "the client drew (it is neither asked to draw once nor to draw again). And the three first exponents whose g_b "
+        "every conformant server has to refuse (b = 0, the order of g, dh_prime - 1: g_b = 1) against a server that "
+        "drops the connection on a refusal: a client that sends that g_b must not report success, switch to encrypted "
+        "mode or store a session, and its CreateConnection must end with an error (thorough: also the silent refusal). "
         "distinct = distinct operation lines; each is compared with the Lean client machine run against the Lean "
         "ServerSpec (request bodies, keys, salts, hash, flags, stores on both sides) and judged from the server's "
         "own values")
@@ -145,7 +163,10 @@ def run(ctx):
         "envelope code of the harness: auth_key_id, msg_key, AES-IGE x=0, salt, ping body); in Lean it follows from "
         "equal 256-byte keys and salts (hs_agree) composed with the envelope theorems of C03, not restated here",
         "hs_agree excludes draws b with g^b mod dh_prime in {0, 1, dh_prime-1}: a conformant server must refuse such "
-        "g_b (the description's range check); this client does not redraw",
+        "g_b (the description's range check); this client does not redraw. That is the ONLY condition on the value of "
+        "b (any byte string of any length otherwise: hs_agree_any_draw, any_draw_condition); b = 0 is excluded "
+        "(zero_draw_excluded). On the real client such a first draw (c06.draw ...-refused-close) ends in an error of "
+        "CreateConnection when the server drops the connection, and in an endless wait when the server stays silent",
     ]
     return vlib.generic_check(ctx, SUB, MODULES, THEOREMS, RULE, gen_hook=regenerate,
                               extra_trusted=("harness/cmd/c07facts (go/parser extractor of the check skeleton)",
